@@ -118,6 +118,41 @@ def race_part(chk, pr, only=None):
         chk.violation(p, "C07 add race: model verdict (C07_current_tree) and real code disagree", no_input=True)
 
 
+WIDTH_LINE = re.compile(r"^ok seqA=(-?\d+) seqB=(-?\d+) same_addr=(\d) erased=(\d) attempts=(\d+)$")
+
+
+def width_part(chk):
+    """Failing-input finder for C07_sequence_width_faithful (coq/C07_Width.v): on the real classes, the timer
+    created 2^32 timers after a dead timer A (the creations in between are accounted for by advancing
+    Timer::s_numCreated_) must get sequence seqA + 2^32, and the stale cancel(id_A) must leave it registered."""
+    exe = vlib.build_driver("C07_width", ["C07_width.cc"], variant="plain", components=("base", "net"))
+    rc, so, se = vlib.sh2([exe], timeout=60)
+    chk.cov["evaluations"] += 1
+    m = WIDTH_LINE.match(so.strip().split("\n")[-1]) if so.strip() else None
+    ok = False
+    if rc != 0 or not m:
+        p = chk.write_replay("width_probe.txt", "# harness/C07_width.cc rc=%s\n%s\n%s\n" % (rc, so[-2000:], se[-2000:]))
+        chk.violation(p, "C07 sequence width probe did not complete (rc=%s)" % rc, no_input=True)
+    else:
+        sa, sb, same, erased = int(m.group(1)), int(m.group(2)), m.group(3) == "1", m.group(4) == "1"
+        chk.cov["sequence_width_probe"] = {"seqA": sa, "seq_of_timer_2^32_later": sb, "same_address": same, "stale_cancel_erased_it": erased}
+        if sb == sa + (1 << 32) and not erased:
+            ok = True
+        else:
+            p = chk.write_replay("width_wrap.txt",
+                                 "# harness/C07_width.cc (no input; run it against the tree)\n"
+                                 "# timer A: sequence %d, cancelled and freed; 2^32 - 1 further Timer creations accounted for by\n"
+                                 "# advancing Timer::s_numCreated_; the next timer B got sequence %d (expected %d)%s;\n"
+                                 "# the stale cancel(id_A) %s\n%s\n"
+                                 % (sa, sb, sa + (1 << 32), " at A's address" if same else "",
+                                    "ERASED the live timer B" if erased else "left B registered", so))
+            chk.violation(p, "C07 fails on the implementation: the timer created 2^32 timers after a dead timer gets sequence %d "
+                             "(dead timer's: %d)%s" % (sb, sa, "; cancelling the stale id erased the live timer" if erased else
+                                                       "; (address, sequence) no longer identifies one timer"))
+    chk.add_obligation("sequence width probe on the real classes: the timer created 2^32 timers after a dead one gets a fresh "
+                       "sequence and survives the stale cancel (harness/C07_width.cc; C07_sequence_width_faithful)", ok)
+
+
 def run(chk, replay=None):
     if replay and any(l.startswith("case ") and l.split()[2:3] == ["race"] for l in open(replay).read().split("\n")):
         pr = chk.prove()
@@ -125,11 +160,12 @@ def run(chk, replay=None):
     else:
         def extra(chk, pr):
             race_part(chk, pr)
+            width_part(chk)
             # free-running programs (real loop / timerfd / clock): processed cancels stop the timer, foreign adds/cancels
             base.free_part(chk, 320 if chk.tier == "thorough" else 8, variants=("plain", "asan") if chk.tier == "thorough" else ("plain",))
         base.run_common(chk, "C07", base.C07_CLAUSES, ["reuse", "mixed", "reuse"], replay=replay,
                         extra=None if replay else extra)
     return chk.finish(level="proof", assumptions=[
-        "the allocator may return any non-live address (reuse allowed) but never a live one; Timer::s_numCreated_ does not wrap",
+        "the allocator may return any non-live address (reuse allowed) but never a live one; fewer than 2^63 timers are created per process (Timer::s_numCreated_ and every carrier of a sequence are 64 bit: C07_sequence_width_faithful)",
         "foreign-thread calls interact with the loop thread only through the mutex-guarded functor queue (sequentially consistent interleaving of micro-steps, DESIGN 3.2)",
         "the model is tied to the code by differential execution (testing), not by a verified C++ semantics"])
